@@ -476,7 +476,7 @@ func TestVerifC31Programs(t *testing.T) {
 			defer wg.Done()
 			from := uint64(0)
 			var skip []uint64
-			unknownCrashes := 0
+			unknownCrashes, earlyDeaths := 0, 0
 			for attempt := 0; attempt < 400 && unknownCrashes < 6; attempt++ {
 				out, err := c31Spawn(c, dir, k, w, n, g, from, skip, "")
 				resFile := filepath.Join(dir, fmt.Sprintf("res-%d-%d.json", k, from))
@@ -507,12 +507,20 @@ func TestVerifC31Programs(t *testing.T) {
 					mu.Unlock()
 					return
 				}
-				mu.Lock()
-				crashes++
-				mu.Unlock()
-				if len(cands) == 0 {
+				if len(cands) > 0 {
 					mu.Lock()
-					harness = append(harness, fmt.Sprintf("worker %d exited abnormally (%v) before any case; output tail: %s", k, err, c31Tail(out, 2000)))
+					crashes++
+					mu.Unlock()
+				}
+				if len(cands) == 0 {
+					// died before evaluating anything (seen once with the race runtime at start-up, without any
+					// output): not attributable to an input. Start it again; give up after three such starts.
+					earlyDeaths++
+					if earlyDeaths < 3 {
+						continue
+					}
+					mu.Lock()
+					harness = append(harness, fmt.Sprintf("worker %d exited abnormally (%v) before any case, %d times; output tail: %q", k, err, earlyDeaths, c31Tail(out, 2000)))
 					mu.Unlock()
 					return
 				}
